@@ -97,7 +97,10 @@ func (e *kvElection) handleValidationFailure(err error) {
 	)
 
 	verifNote(e, "val_fail", 0)
-	e.becomeFollower()
+	if !e.becomeFollower() {
+		// not leader any more: another path already ended this term
+		return
+	}
 
 	e.mu.RLock()
 	onDemote := e.onDemote
